@@ -208,7 +208,7 @@ class Unit:
                         # tagged line outside an item (e.g. a lemma or a spec clause)
                         raw.append(Line(pm[0], 'raw', pm[2], pm[3], pm[4]))
                         if pm[3]:
-                            self.kfs.add(pm[3])
+                            self.kfs.add(pm[3].lstrip('!'))
                     else:
                         raw.append(Line(line, 'raw'))
                 continue
@@ -247,7 +247,7 @@ class Unit:
                     else:
                         cur.stored.append((text, True, tags, kf, label))
                     if kf:
-                        self.kfs.add(kf)
+                        self.kfs.add(kf.lstrip('!'))
                     if 'verifier::external_body' in text:
                         cur.trusted = True
                 elif block is not None:
@@ -479,7 +479,10 @@ class Unit:
 
         def emit_ins(lst):
             for (text, _, tags, kf, label) in lst:
-                if kf and not kf_on:
+                if kf and kf.startswith('!'):
+                    if kf_on:
+                        continue     # known-failing clause: only checked in the strict run
+                elif kf and not kf_on:
                     continue
                 out.append(Line(text, 'ins', tags, kf, label, idx))
         emit_ins(after.get(-1, []))
@@ -498,7 +501,10 @@ class Unit:
         for kind, seg in self.segments:
             if kind == 'raw':
                 for l in seg:
-                    if l.kf and not kf_on:
+                    if l.kf and l.kf.startswith('!'):
+                        if kf_on:
+                            continue
+                    elif l.kf and not kf_on:
                         continue
                     out.append(l)
                 continue
